@@ -24,7 +24,7 @@ import operator
 import math
 import time
 
-from ..core.types import Capability
+from ..core.types import Capability, describe_error
 
 # Safety limits
 MAX_EXPRESSION_LENGTH = 10000  # Characters
@@ -460,11 +460,11 @@ class Mitochondria:
             error_context = {
                 "expression": expression[:100] + "..." if len(expression) > 100 else expression,
                 "error_type": type(e).__name__,
-                "error_message": str(e),
+                "error_message": describe_error(e),
             }
             return MetabolicResult(
                 success=False,
-                error=f"Metabolic failure in {pathway.value if pathway else 'auto'}: {type(e).__name__}: {e}",
+                error=f"Metabolic failure in {pathway.value if pathway else 'auto'}: {type(e).__name__}: {describe_error(e)}",
                 pathway=pathway or MetabolicPathway.GLYCOLYSIS,
                 ros_level=self._ros_accumulated
             )
@@ -798,5 +798,5 @@ class Mitochondria:
                 call_id=call.id,
                 output=None,
                 success=False,
-                error=str(e)
+                error=describe_error(e)
             )
